@@ -339,6 +339,60 @@ def r18_8(prog, rep, rule="R18.8"):
     rep.check(ok, rule, f.qualname, f.loc, "the pairs test accepts 2-element tuples and lists and rejects mappings, sets and text", "; ".join(why) or "no pairs test found", detail="pairs-test")
 
 
+def r18_12(prog, rep, rule="R18.12"):
+    """A class of which only part of the hierarchy declares __slots__ has instances with slots *and* a __dict__: where the
+    attribute names are taken from __slots__, the iterator handed out either belongs to a class without instance dict
+    (`not tp.__dictoffset__` established on the path) or also reads the instance dict."""
+    f = prog.function(f"{C.SERDES}._make_fields_iterator")
+    tp = ("param", f.params[0])
+    n, bad = 0, []
+    import ast as _ast
+
+    def reads_dict(term, depth=0):
+        """the closure / function `term` (or one it calls on the instance) reads vars(val) or val.__dict__"""
+        if term[0] == "closure":
+            name = term[1].rsplit(".", 1)[-1]
+            try:
+                fi, ps = P.closure_paths(prog, f, name)
+            except Exception:
+                return False
+        elif term[0] == "ref" and term[1] in prog.functions:
+            fi = prog.functions[term[1]]
+            ps = P.paths_of(prog, fi)
+        else:
+            return False
+        own = {("param", n) for n in fi.params}  # the instance, not a class of the hierarchy
+        for p in ps:
+            for tm in p.all_terms():
+                for x in T.walk(tm):
+                    if (T.is_call_to(x, "builtins.vars") and x[2] and x[2][0] in own) or (x[0] == "attr" and x[2] == "__dict__" and x[1] in own):
+                        return True
+                    if depth < 2 and x[0] == "call" and x[1][0] in ("closure", "ref") and reads_dict(x[1], depth + 1):
+                        return True
+        return False
+
+    for p in P.splice_helpers(prog, P.paths_of(prog, f)):
+        if p.exit[0] != "return":
+            continue
+        last = None
+        for i, e in enumerate(p.events):
+            if e[0] == "assign" and e[2][0] == "comp" and e[2][3]:
+                k = _source_kind(e[2][3][0][0])
+                if k:
+                    last = k
+        if last != "__slots__":
+            continue
+        n += 1
+        atoms = T.derive_atoms(p.guards())
+        no_dict = any((not val) and a == ("attr", tp, "__dictoffset__") for a, val in atoms) or any(val and a == ("not", ("attr", tp, "__dictoffset__")) for a, val in atoms)
+        if not no_dict and not reads_dict(p.exit[1]):
+            bad.append(T.show(p.exit[1])[:60])
+    if not n:
+        rep.held(rule, f.qualname, f.loc, "no attribute names are taken from __slots__", detail="slots-and-dict", nontrivial=False)
+        return
+    rep.check(not bad, rule, f.qualname, f.loc, f"{n} path(s) take names from __slots__: the instance has no __dict__ there, or the iterator reads it too", f"names are taken from __slots__ alone although the instances may own a __dict__ as well (only part of the hierarchy is slotted): `class Base: __slots__ = ('a',)` / `class Child(Base)` storing self.b -- iteritems(Child('1', 2)) yields only ('a', '1'), and unmarshal(Child, Child('1', 2)) raises TypeError (missing 'b')", detail="slots-and-dict")
+
+
 def r18_9(prog, rep, rule="R18.9"):
     """Public *fields*: a ClassVar annotation of a plain / __slots__ class is no field (dataclasses.fields() already leaves
     them out for dataclasses): the names taken from the type hints must be filtered by the ClassVar test."""
@@ -422,6 +476,8 @@ def run(prog: Program, rep: Report, tier: str):
     rep.rule("R18.4", "public-name filter on every attribute source", floor=4)
     rep.rule("R18.5", "itervalues projects the same strategy; strategy order and arms", floor=5)
     rep.rule("R18.6", "no mutation of the argument", floor=5)
+    rep.rule("R18.12", "names taken from __slots__ are complemented by the instance dict where there is one", floor=1)
+    r18_12(prog, rep)
     rep.rule("R18.11", "member hints carry no Annotated wrapper (a wrapped ClassVar would be a field)", floor=1)
     from . import c11
 
